@@ -84,6 +84,45 @@ func init() {
 			},
 		})
 	}
+	// the context is cancelled while a job is executing; the caller resumes the (then paused) worker before the job
+	// ends: the cancellation must still stop the worker, and it must never report Running while unable to process
+	Register(&Scenario{
+		Name:  "ctx-cancel-resume",
+		Props: []string{"C14", "C18"},
+		Mode:  "NB", Quick: 2, Thorough: 3, Shards: 8,
+		Body: func(h *H) {
+			h.Shape = Gated
+			ctx, cancel := context.WithCancel(context.Background())
+			w := h.NewWorker(Plain, 1, varmq.WithContext(ctx))
+			q := w.Bind(Fifo, nil)
+			q.Add(0, AddOpt{})
+			h.Quiesce(false)
+			c := h.ctlCall(w, "Cancel", 0)
+			cancel()
+			h.ctlRet(c, nil)
+			w.RefState = "?"
+			h.Quiesce(false)
+			go func() { w.Resume() }()
+			go func() { h.Open(0) }()
+			h.Quiesce(true)
+			st := w.Wk.Status()
+			p := q.Add(1, AddOpt{})
+			h.Open(1)
+			h.Quiesce(true)
+			if st == "Running" && len(p.Starts) == 0 {
+				h.viol("C14", "C14.probe", "the worker reports Running after its context was cancelled but does not process a submitted job")
+			}
+			if st != "Stopped" && st != "Running" {
+				h.viol("C14", "C14.cancel", "cancelling the configured context left the worker "+st)
+			}
+			if st == "Stopped" {
+				if n := vrt.LiveLib(""); n > 0 {
+					h.viol("C18", "C18.leak-after-stop", "goroutines still alive after the context was cancelled and the worker stopped:"+liveNames())
+				}
+			}
+			h.NoRest = true
+		},
+	})
 	// cancelling the configured context stops the worker and leaves no goroutine behind
 	Register(&Scenario{
 		Name:  "ctx-cancel",
